@@ -1,5 +1,5 @@
 #!/bin/bash
-# tools/seedcheck.sh <Cnn> [srcdir]: validate a sub-agent's seeded change and run the checks against it.
+# tools/seedcheck.sh <Cnn> [srcdir] [name]: validate a sub-agent's seeded change and run the checks against it.
 # Reads <srcdir>/_out/{patch.diff,demo_test.go,meta.json} (default /tmp/seed/<Cnn>); writes /verif/seeded/<Cnn>/.
 set -u
 id=$1; src=${2:-/tmp/seed/$id}; name=${3:-$id}; out=/verif/seeded/$name; val=/tmp/seedval/$name
@@ -7,9 +7,10 @@ export GOFLAGS=-mod=mod GOPROXY=off GOSUMDB=off GOTOOLCHAIN=local
 [ -f "$src/_out/patch.diff" ] || { echo "no patch for $id"; exit 2; }
 mkdir -p "$out" /tmp/seedval
 cp "$src/_out/patch.diff" "$src/_out/demo_test.go" "$src/_out/meta.json" "$out/" 2>/dev/null
+res() { echo "$1" | tee -a "$out/validation.log"; }
+if [ -z "${ONLYCHECKS:-}" ]; then
 git -C /repo worktree remove --force "$val" 2>/dev/null; rm -rf "$val"
 git -C /repo worktree add --detach "$val" HEAD -q || exit 2
-res() { echo "$1" | tee -a "$out/validation.log"; }
 : > "$out/validation.log"
 cd "$val"
 if ! git apply "$out/patch.diff" 2>>"$out/validation.log"; then res "APPLY: FAILED"; git -C /repo worktree remove --force "$val"; exit 1; fi
@@ -19,15 +20,19 @@ pkg=$(python3 -c "import json;print(json.load(open('$out/meta.json'))['demo_pack
 dfile=$(python3 -c "import json;print(json.load(open('$out/meta.json'))['demo_file_in_package'])")
 runcmd=$(python3 -c "import json;print(json.load(open('$out/meta.json'))['demo_run_cmd'])")
 # full suite with the change, without the demo file
-go test -count=1 -vet=off -timeout 25m ./... > /tmp/seedval/$id.suite.txt 2>&1
-if grep -q "^FAIL\|^--- FAIL\|panic:" /tmp/seedval/$id.suite.txt; then res "SUITE with change: FAILED ($(grep -c '^FAIL' /tmp/seedval/$id.suite.txt) failing packages)"; grep "^FAIL\|^--- FAIL" /tmp/seedval/$id.suite.txt | head -5 >> "$out/validation.log"; else res "SUITE with change: all packages ok ($(grep -c '^ok' /tmp/seedval/$id.suite.txt) ok)"; fi
+go test -count=1 -vet=off -timeout 25m ./... > /tmp/seedval/$name.suite.txt 2>&1
+if grep -q "^FAIL\|^--- FAIL\|panic:" /tmp/seedval/$name.suite.txt; then res "SUITE with change: FAILED ($(grep -c '^FAIL' /tmp/seedval/$name.suite.txt) failing packages)"; grep "^FAIL\|^--- FAIL" /tmp/seedval/$name.suite.txt | head -5 >> "$out/validation.log"; else res "SUITE with change: all packages ok ($(grep -c '^ok' /tmp/seedval/$name.suite.txt) ok)"; fi
 cp "$out/demo_test.go" "$val/$pkg/$dfile"
-if (eval "$runcmd") > /tmp/seedval/$id.demo1.txt 2>&1; then res "DEMO with change: PASSED (expected FAIL)"; else res "DEMO with change: failed as expected"; fi
+if (eval "$runcmd") > /tmp/seedval/$name.demo1.txt 2>&1; then res "DEMO with change: PASSED (expected FAIL)"; else res "DEMO with change: failed as expected"; fi
 git checkout -q -- . ; git clean -fdq ; cp "$out/demo_test.go" "$val/$pkg/$dfile"; git status --short | grep -v "$dfile" | grep -v "go.mod\|go.sum" >> "$out/validation.log"
-if (eval "$runcmd") > /tmp/seedval/$id.demo2.txt 2>&1; then res "DEMO without change: passed as expected"; else res "DEMO without change: FAILED (expected PASS)"; tail -5 /tmp/seedval/$id.demo2.txt >> "$out/validation.log"; fi
+if (eval "$runcmd") > /tmp/seedval/$name.demo2.txt 2>&1; then res "DEMO without change: passed as expected"; else res "DEMO without change: FAILED (expected PASS)"; tail -5 /tmp/seedval/$name.demo2.txt >> "$out/validation.log"; fi
 cd /verif
-git -C /repo worktree remove --force "$val"; rm -rf "$val" /tmp/seedval/$id.*.txt
-# the checks against the change
+git -C /repo worktree remove --force "$val"; rm -rf "$val" /tmp/seedval/$name.*.txt
+fi
+[ -n "${SKIPCHECKS:-}" ] && exit 0
+# the checks against the change (ONLYCHECKS=1: this part alone, after a SKIPCHECKS=1 run did the validation)
+cd /verif
+sed -i '/^CHECKS/,$d' "$out/validation.log"
 exec 9>/tmp/repo.lock; flock 9
 if git -C /repo apply "$out/patch.diff"; then
   ./run.sh all quick > "$out/checks.txt" 2>&1
